@@ -504,6 +504,9 @@ func c20samples(c *core.Ctx) {
 			0, math.Copysign(0, -1), math.Inf(1), math.Inf(-1), 1e300, -1e300, 0, 5e-324}
 		for k := 0; k < 40; k++ {
 			n := r.Range(0, 8)
+			if k%4 == 3 {
+				n = r.Range(9, 40) // long lists: unrolled or blocked loops and their remainders
+			}
 			args := make([]float64, n)
 			for i := range args {
 				args[i] = pool[r.Intn(len(pool))]
@@ -549,6 +552,18 @@ func c20samples(c *core.Ctx) {
 			}
 			if typ.Sum(ints...) != si || typ.Product(ints...) != pi {
 				c20fail(c, "Sum/Product:int16-variadic", fmt.Sprintf("Sum/Product(%v)=%d/%d want %d/%d", ints, typ.Sum(ints...), typ.Product(ints...), si, pi))
+				return
+			}
+			// odd 64-bit factors: the wrapping product stays odd, so every single factor matters
+			odds := make([]uint64, n)
+			var so, po uint64 = 0, 1
+			for i := range odds {
+				odds[i] = r.Uint64() | 1
+				so += odds[i]
+				po *= odds[i]
+			}
+			if typ.Sum(odds...) != so || typ.Product(odds...) != po {
+				c20fail(c, "Sum/Product:uint64-variadic", fmt.Sprintf("Sum/Product of %d odd uint64 values %v = %d/%d want %d/%d", n, odds, typ.Sum(odds...), typ.Product(odds...), so, po))
 				return
 			}
 			if n > 0 {
@@ -657,6 +672,18 @@ func c20samples(c *core.Ctx) {
 		if !typ.IsZero(weirdZero{}) || !typ.IsZero(weirdZero{5}) || typ.IsZero(weirdZero{1}) {
 			c20fail(c, "IsZero:zero-value-with-method", "IsZero must be true for the zero value and for values whose IsZero method says so")
 			return
+		}
+		// T a pointer type or an interface type whose dynamic value has the method
+		{
+			tz, tn := &time.Time{}, time.Date(2020, 1, 2, 3, 4, 5, 6, time.UTC)
+			if !typ.IsZero(tz) || typ.IsZero(&tn) || !typ.IsZero(&zeroer{V: 0, Mark: 3}) || typ.IsZero(&zeroer{V: 2}) {
+				c20fail(c, "IsZero:method-via-pointer-type", "IsZero(p) for a non-nil pointer p to a type with an IsZero value method must report what p.IsZero() reports (the method is in the pointer type's method set)")
+				return
+			}
+			if !typ.IsZero[any](time.Time{}) || typ.IsZero[any](tn) || !typ.IsZero[any](zeroer{Mark: 1}) || typ.IsZero[any](zeroer{V: 1}) || !typ.IsZero[any](nil) || typ.IsZero[any](3) || !typ.IsZero[fmt.Stringer](nil) {
+				c20fail(c, "IsZero:method-via-interface-type", "IsZero[any](v) must honour the IsZero method of the dynamic value (and be true for the nil interface, false for a plain non-zero value)")
+				return
+			}
 		}
 		if p, pv := core.Catch(func() {
 			if !typ.IsZero((*time.Time)(nil)) || !typ.IsZero((*zeroer)(nil)) {
